@@ -677,10 +677,32 @@ def run_entries(ctx, rid, entries, text, floor_bodies=3):
         ctx.missing(rid, 'entry points %s' % entries)
 
 
-def _loader_validates(F, path):
+def _top_split(a):
+    """top-level comma split of a `[a, b<c, d>]` generic-argument list"""
+    a = (a or '').strip()
+    if a.startswith('[') and a.endswith(']'):
+        a = a[1:-1]
+    out, depth, cur = [], 0, ''
+    for ch in a:
+        if ch in '<([':
+            depth += 1
+        elif ch in '>)]':
+            depth -= 1
+        if ch == ',' and depth == 0:
+            out.append(cur.strip())
+            cur = ''
+        else:
+            cur += ch
+    if cur.strip():
+        out.append(cur.strip())
+    return out
+
+
+def _loader_validates(F, path, site_args=None):
     """True / False / None / 'no': a crate fn that decodes an artifact from bytes after validating the block size of a preamble
     decoded from the SAME bytes: True when the preamble's leading field has the type of the artifact's, False when the types
-    differ, None when a type is generic; 'no' when the function is not of that shape"""
+    differ, None when a type is generic and the call site (`site_args`: its generic arguments) does not fix it; 'no' when the
+    function is not of that shape"""
     bodies = [x for x in [F.body(path)] + list(F.nested(path)) if x is not None]
     for xb in bodies:
         xfl = flow_of(xb)
@@ -714,8 +736,19 @@ def _loader_validates(F, path):
             m = re.match(r'^std::result::Result<(.+?)(?:<.*>)?, ', ty)
             inner = re.match(r'^std::result::Result<(.*), std::boxed::Box<', ty)
             full = inner.group(1) if inner else (m.group(1) if m else '')
+            if site_args and re.fullmatch(r'[A-Z]\w*', full):
+                # the decoded type is a parameter of the loader (`deserialize::<T>`): the call site under judgement fixes it
+                for ga in _top_split(xb.blocks[k[2]]['term']['func'].get('fn_args', '')):
+                    gm = re.fullmatch(r'%s/#(\d+)' % re.escape(full), ga)
+                    if gm and int(gm.group(1)) < len(site_args) and not re.search(r'/#\d+', site_args[int(gm.group(1))]):
+                        full = site_args[int(gm.group(1))]
+                        break
             base = re.sub(r'<.*$', '', full)
             adt = F.adts.get(base) or F.adts.get(base.replace('copia::', ''))
+            if adt is None and base:
+                # a re-export (`copia::Signature` for signature::Signature): the one crate type of that name
+                cands = [k_ for k_ in F.adts if re.fullmatch(r'[\w:]+', k_) and k_.split('::')[-1] == base.split('::')[-1]]
+                adt = F.adts[cands[0]] if len(cands) == 1 else None
             targs = re.findall(r'<(.*)>$', full)
             if adt is None or not adt.get('variants') or not adt['variants'][0].get('fields'):
                 return None
@@ -729,7 +762,9 @@ def _loader_validates(F, path):
         generic = lambda t: t is None or '/#' in t or ' as ' in t or re.fullmatch(r'[A-Z]\w*', t or '') is not None
         if any(generic(t) for t in tp | tr):
             return None
-        return tp == tr
+        # serde writes a usize as a u64 (isize as i64): the same eight bytes on the wire
+        wire = lambda t: {'usize': 'u64', 'isize': 'i64'}.get(t, t)
+        return {wire(t) for t in tp} == {wire(t) for t in tr}
     return 'no'
 
 
@@ -787,7 +822,9 @@ def precond_guarded(F, cg, b, bb, argi, depth):
     if ao and all(o.kind == 'call' and F.body(str(o.key)) is not None and o.path[-1:] == ('block_size',) for o in ao):
         verdicts = []
         for o in ao:
-            verdicts.append(_loader_validates(F, str(o.key)))
+            site = b.blocks[o.bb]['term'] if o.bb is not None and o.bb < len(b.blocks) else None
+            ta = _top_split(site['func'].get('fn_args', '')) if site is not None and site.get('k') == 'call' and 'func' in site else None
+            verdicts.append(_loader_validates(F, str(o.key), ta))
         if all(v is True for v in verdicts):
             return True
         if any(v is False for v in verdicts):
